@@ -148,6 +148,18 @@ class Scenario:
             self._do([f'S:{i}:{tmo}'], ev)
         elif name == 'shutdown':
             self._do(['X'], [('X',)], done=True)
+        elif name in ('shutdown_gated', 'drop_gated'):
+            # hold the task AT the Shutdown notification (the peer is asked what it sees there), then let it end
+            if self.held:
+                return
+            pred = copy.deepcopy(s)
+            ev = ('X',) if name == 'shutdown_gated' else ('H',)
+            pred.apply(ev)
+            if pred.ph != 'Done':
+                return
+            self.h += [f'hold:{pred.nl}', 'X' if name == 'shutdown_gated' else 'H', f'wait:{pred.nl}', 'go', 'done']
+            self.m.append(ev)
+            self.sim = pred
         elif name == 'drop':
             self._do(['H'], [('H',)], done=True)
         elif name == 'during_wait':
@@ -283,6 +295,10 @@ def gen_loopback(r, n):
         sc.op(*((o,) if isinstance(o, str) else o))
     out.append(sc)
     directed += [
+        # the notification is a gate: Disabled / Shutdown / the wait states with the connection already closed on the peer side
+        [('env', 'serve'), 'enable', 'shutdown_gated'], [('env', 'silent'), 'enable', 'drop_gated'], [('env', 'serve'), 'enable', 'submit', 'shutdown_gated'],
+        [('env', 'silent'), 'enable', ('inject_disabled', 'E'), 'shutdown_gated'],
+        [('env', 'serve'), ('inject', ('lN', 'D')), 'shutdown'], [('env', 'silent'), 'enable', ('inject_disabled', 'S'), 'enable', 'drop_gated'],
         [('env', 'serve'), 'enable', ('inject_disabled', 'E'), 'submit', 'shutdown'],
         [('env', 'serve'), 'enable', ('inject_disabled', 'X')], [('env', 'silent'), 'enable', ('inject_disabled', 'H')],
         [('env', 'serve'), 'enable', ('inject_disabled', 'S'), 'enable', 'submit', 'drop'],
@@ -315,10 +331,41 @@ def gen_loopback(r, n):
                 sc.op('inject_disabled', r.choice('EXHS'))
             else:
                 sc.op(r.choice(['shutdown', 'drop']))
-        sc.op(r.choice(['shutdown', 'drop']))
+        sc.op(r.choice(['shutdown', 'drop', 'shutdown_gated', 'drop_gated']))
+        sc.op('shutdown')
         if not getattr(sc, 'bad', False):
             out.append(sc)
     return out
+
+
+NAMES = {'lD': 'Disabled', 'lC': 'Connecting', 'lF': 'WaitAfterFailedConnect', 'lW': 'WaitAfterDisconnect', 'lS': 'Shutdown'}
+KEYS_OPTIONS = ('C13.dead-connection-not-dropped-and-re-established-although-a-timeout-limit-was-set-through-the-options',
+                'C13.task-built-from-the-options-differs-from-the-model', 'loopback:timeout-limit-set-through-the-options-builder')
+
+
+def loopback_options(ctx):
+    """environment "accepted and silent with a timeout limit", the limit set the only public way: through the ClientOptions
+    builder, in different call orders (`chain=` of the lifecycle harness).  Spec (documentation of the builder): the limit
+    is the argument of the last max_response_timeouts call whatever else is called; C13: after every L-th timeout in a
+    row the listener hears WaitAfterDisconnect, then Connecting, Connected again; without a limit it hears nothing."""
+    import itertools
+    from checks import c12
+    r = ctx.rng
+    chains = []
+    for L in (1, 2):
+        for k in 'lqd':
+            chains += [[('t', L), (k, c12.VALUES[k][-1])], [(k, c12.VALUES[k][-1]), ('t', L)]]
+    perms = list(itertools.permutations('lqdt'))
+    r.shuffle(perms)
+    for perm in perms[:6 if ctx.quick() else 24]:
+        chains.append([(k, r.choice([1, 2]) if k == 't' else c12.VALUES[k][-1]) for k in perm])
+    chains += [[('t', 2), ('t', 0)], [('l', 1), ('d', 1)], [('t', 0), ('l', 1), ('t', 2), ('q', 64)]]
+    res = []
+    for ch in chains:
+        ts = [v for k, v in ch if k == 't']
+        res.append((None, None, (ts[-1] or None) if ts else None, None))
+    c12.options_behaviour(ctx, chains, res, KEYS_OPTIONS)
+    return len(chains)
 
 
 def loopback(ctx, n):
@@ -341,11 +388,21 @@ def judge_loopback(ctx, items):
     for (ops, line, mcase), i, m in zip(items, impl, mod):
         parts = i.split('|')
         spec, other = [], []
-        if i == 'PANIC' or len(parts) != 6:
+        if i == 'PANIC' or len(parts) != 7:
             spec.append('panic-or-garbled-output')
         else:
-            ls, comp, fin, accepts, tmo, gaps = parts
+            ls, comp, fin, accepts, tmo, gaps, pview = parts
             ls = ls.split()
+            # the callback is a gate: while the task is held in a notification the peer is asked what it sees.  Only Connected
+            # is reported with a connection open; Disabled / Connecting / the wait states / Shutdown find every connection
+            # the peer accepted closed (EOF or error already read by the peer)
+            for pv in pview.split():
+                n, nopen, mode = pv[1:].split(':')
+                kind = ls[int(n) - 1][:2]
+                if kind != 'lN' and int(nopen) > 0:
+                    spec.append(f'C13.{NAMES.get(kind, kind)}-reported-while-the-connection-is-still-open')
+                if kind == 'lN' and int(nopen) == 0 and mode in ('serve', 'silent'):
+                    spec.append('C13.Connected-reported-although-the-peer-sees-no-open-connection')
             gaps = [int(x) for x in gaps.split()]
             # the next Connecting after a wait state does not come before the announced delay is over
             for k in range(1, len(ls)):
@@ -555,6 +612,9 @@ def serial_items(ctx, SERIAL):
 def run(ctx):
     if not cl.prepare(ctx, ['Spec.Lifecycle', 'Model.SerialTask', 'Model.SerialEager']):
         return
+    e = getattr(ctx, 'gen_report', {}).get('ClientScope.v', {'ok': False, 'error': 'no such generator'})
+    if not ctx.oblige('translator:ClientScope.v', e['ok'], e.get('error', '')):
+        ctx.proof_broken.append(f'translator could not regenerate Gen/ClientScope.v: {e.get("error")}')
     if ctx.replay and 'tls_cases' in ctx.replay:
         from checks import c13_tls
         return c13_tls.run_tls(ctx)
@@ -591,7 +651,14 @@ def run(ctx):
 
     n_loop, ltraces = (0, [])
     n_serial = 0
+    n_opt = 0
+    if ctx.replay and 'behaviour' in ctx.replay:
+        from checks import c12
+        c12.judge_behaviour(ctx, [([(c[0], int(c[1:])) for c in t.split(',') if c and c != '-'], L, k, line, cl.case_from_json(j))
+                                  for t, L, k, line, j in ctx.replay['behaviour']], KEYS_OPTIONS)
+        return
     if not ctx.replay:
+        n_opt = loopback_options(ctx)
         n_loop, ltraces = loopback(ctx, 100 if ctx.quick() else 220)
         n_serial = serial(ctx, 40 if ctx.quick() else 150)
         # TLS channels: the listener path of the real spawn_tls_client_task (lib/checks/c13_tls.py)
@@ -603,6 +670,7 @@ def run(ctx):
             classes[k] = classes.get(k, 0) + 1
     classes['distinct-listener-traces'] = len(distinct)
     classes['loopback-scenarios'] = n_loop
+    classes['loopback-options-builder-scenarios'] = n_opt
     classes['serial-pty-scenarios'] = n_serial
     classes['loopback-distinct-listener-traces'] = len(set(tuple(t) for t in ltraces))
     for t in ltraces:
